@@ -708,6 +708,8 @@ func checkC04(p *Prog, res *Result, tier string) {
 	checkWhoMayAdvance(p, r, res, "C04-R5")
 	// R6: no self-deadlock in the pipeline that resolves revisions (C19-R5)
 	checkSelfDeadlock(p, p.lockContext(), res, "C04-R6")
+	// .. nor can a request leave a lock of that pipeline (event cache, hub) held behind (C19-R5, pairing)
+	checkLockPairing(p, res, "C04-R6")
 
 }
 
